@@ -382,6 +382,26 @@ pub mod mpsc {
         pub fn reserve(&self) -> ReserveFut<'_, T> {
             ReserveFut { tx: self, ticket: 0, done: false }
         }
+        /// `reserve_many(n)`: n permits, handed out through an iterator; unused ones are released
+        /// when the iterator is dropped.  (Native model: acquired one after the other.)
+        pub async fn reserve_many(&self, n: usize) -> Result<PermitIterator<'_, T>, SendError<()>> {
+            let mut got = 0;
+            while got < n {
+                match self.reserve().await {
+                    Ok(p) => {
+                        std::mem::forget(p);
+                        got += 1;
+                    }
+                    Err(e) => {
+                        for _ in 0..got {
+                            ctr(self.id).release_one();
+                        }
+                        return Err(e);
+                    }
+                }
+            }
+            Ok(PermitIterator { tx: self, n })
+        }
         pub fn try_reserve(&self) -> Result<Permit<'_, T>, TrySendError<()>> {
             let c = ctr(self.id);
             if c.closed {
@@ -512,6 +532,28 @@ pub mod mpsc {
             if !self.used {
                 ctr(self.tx.id).release_one();
             }
+        }
+    }
+    pub struct PermitIterator<'a, T> {
+        tx: &'a Sender<T>,
+        n: usize,
+    }
+    impl<'a, T> Iterator for PermitIterator<'a, T> {
+        type Item = Permit<'a, T>;
+        fn next(&mut self) -> Option<Permit<'a, T>> {
+            if self.n == 0 {
+                return None;
+            }
+            self.n -= 1;
+            Some(Permit { tx: self.tx, used: false })
+        }
+    }
+    impl<T> Drop for PermitIterator<'_, T> {
+        fn drop(&mut self) {
+            for _ in 0..self.n {
+                ctr(self.tx.id).release_one();
+            }
+            self.n = 0;
         }
     }
     pub struct ReserveFut<'a, T> {
@@ -657,6 +699,154 @@ pub mod mpsc {
                 k += 1;
             }
         }
+    }
+}
+
+/// `tokio::sync::Semaphore` (fair: waiters are served in arrival order; `close()` fails them).
+/// Native / MIR-dump model; its methods are python builtins in the interpreter.
+pub struct Semaphore {
+    st: std::sync::Mutex<SemState>,
+}
+struct SemState {
+    permits: usize,
+    closed: bool,
+    next_ticket: u64,
+    queue: std::collections::VecDeque<(u64, usize)>,
+}
+impl std::fmt::Debug for Semaphore {
+    fn fmt(&self, f: &mut std::fmt::Formatter<'_>) -> std::fmt::Result {
+        f.write_str("Semaphore")
+    }
+}
+#[derive(Debug)]
+pub struct AcquireError(());
+impl std::fmt::Display for AcquireError {
+    fn fmt(&self, f: &mut std::fmt::Formatter<'_>) -> std::fmt::Result {
+        f.write_str("semaphore closed")
+    }
+}
+impl std::error::Error for AcquireError {}
+#[derive(Debug, PartialEq, Eq)]
+pub enum TryAcquireError {
+    Closed,
+    NoPermits,
+}
+#[derive(Debug)]
+pub struct SemaphorePermit<'a> {
+    sem: &'a Semaphore,
+    n: usize,
+}
+impl SemaphorePermit<'_> {
+    pub fn forget(mut self) {
+        self.n = 0;
+    }
+}
+impl Drop for SemaphorePermit<'_> {
+    fn drop(&mut self) {
+        if self.n > 0 {
+            self.sem.add_permits(self.n);
+        }
+    }
+}
+#[derive(Debug)]
+pub struct OwnedSemaphorePermit {
+    sem: std::sync::Arc<Semaphore>,
+    n: usize,
+}
+impl OwnedSemaphorePermit {
+    pub fn forget(mut self) {
+        self.n = 0;
+    }
+}
+impl Drop for OwnedSemaphorePermit {
+    fn drop(&mut self) {
+        if self.n > 0 {
+            self.sem.add_permits(self.n);
+        }
+    }
+}
+pub struct Acquire<'a> {
+    sem: &'a Semaphore,
+    n: usize,
+    ticket: Option<u64>,
+}
+impl<'a> std::future::Future for Acquire<'a> {
+    type Output = Result<SemaphorePermit<'a>, AcquireError>;
+    fn poll(mut self: std::pin::Pin<&mut Self>, _cx: &mut std::task::Context<'_>) -> std::task::Poll<Self::Output> {
+        let sem = self.sem;
+        let n = self.n;
+        let mut st = sem.st.lock().unwrap();
+        if st.closed {
+            return std::task::Poll::Ready(Err(AcquireError(())));
+        }
+        let t = match self.ticket {
+            Some(t) => t,
+            None => {
+                let t = st.next_ticket;
+                st.next_ticket += 1;
+                st.queue.push_back((t, n));
+                drop(st);
+                self.ticket = Some(t);
+                st = sem.st.lock().unwrap();
+                t
+            }
+        };
+        if st.queue.front().map(|x| x.0) == Some(t) && st.permits >= n {
+            st.permits -= n;
+            st.queue.pop_front();
+            drop(st);
+            self.ticket = None;
+            return std::task::Poll::Ready(Ok(SemaphorePermit { sem, n }));
+        }
+        std::task::Poll::Pending
+    }
+}
+impl Drop for Acquire<'_> {
+    fn drop(&mut self) {
+        if let Some(t) = self.ticket {
+            self.sem.st.lock().unwrap().queue.retain(|x| x.0 != t);
+        }
+    }
+}
+impl Semaphore {
+    pub const MAX_PERMITS: usize = usize::MAX >> 3;
+    pub fn new(permits: usize) -> Self {
+        Semaphore { st: std::sync::Mutex::new(SemState { permits, closed: false, next_ticket: 0, queue: Default::default() }) }
+    }
+    pub fn available_permits(&self) -> usize {
+        self.st.lock().unwrap().permits
+    }
+    pub fn add_permits(&self, n: usize) {
+        self.st.lock().unwrap().permits += n;
+    }
+    pub fn close(&self) {
+        self.st.lock().unwrap().closed = true;
+    }
+    pub fn is_closed(&self) -> bool {
+        self.st.lock().unwrap().closed
+    }
+    pub fn acquire(&self) -> Acquire<'_> {
+        Acquire { sem: self, n: 1, ticket: None }
+    }
+    pub fn acquire_many(&self, n: u32) -> Acquire<'_> {
+        Acquire { sem: self, n: n as usize, ticket: None }
+    }
+    pub fn try_acquire(&self) -> Result<SemaphorePermit<'_>, TryAcquireError> {
+        let mut st = self.st.lock().unwrap();
+        if st.closed {
+            return Err(TryAcquireError::Closed);
+        }
+        if st.queue.is_empty() && st.permits >= 1 {
+            st.permits -= 1;
+            return Ok(SemaphorePermit { sem: self, n: 1 });
+        }
+        Err(TryAcquireError::NoPermits)
+    }
+    pub async fn acquire_owned(self: std::sync::Arc<Self>) -> Result<OwnedSemaphorePermit, AcquireError> {
+        let p = self.acquire().await?;
+        let n = p.n;
+        p.forget();
+        Ok(OwnedSemaphorePermit { sem: self.clone(), n })
     }
 }
 
